@@ -729,8 +729,15 @@ def obligations(ctx):
     loops = [l['name'] for l in _GEN['loops']]
     ests = sorted(_GEN['descs'])
     lines = ['c16.loops', 'c16.ests', 'c16.omp', 'c16.crs_ok'] + ['c16.racefree ' + n for n in loops] + \
-            ['c16.history ' + n for n in ests]
+            ['c16.history ' + n for n in ests] + ['c16.pinned ' + n for n in loops]
     ans = ctx.lean(lines)
+    pinned = dict(zip(loops, ans[4 + len(loops) + len(ests):]))
+    ans = ans[:4 + len(loops) + len(ests)]
+    ctx.extra['prange_descriptor_vs_pinned'] = pinned
+    for n, v in pinned.items():
+        if v != 'same':
+            ctx.note('descriptor of %s is %s with respect to the pinned one: the instance theorems (pushInit_conforms, '
+                     'diteration_not_deterministic) speak about the pinned descriptor; the generated one is decided on its own' % (n, v))
     got_loops = [] if ans[0] == '-' else ans[0].split(',')
     got_ests = [] if ans[1] == '-' else ans[1].split(',')
     if sorted(got_loops) != sorted(loops) or sorted(got_ests) != sorted(ests):
